@@ -25,9 +25,53 @@ def showPairM (r : PairRes) : String :=
   | .undefined => "undefined"
   | _ => showPair r ++ " mut=-"
 
+/-! `String()` up to representation: blanks removed, every integer reduced mod p -/
+def r (v : Int) : String := toString (v % p)
+def s2 (a : GFp2) : String := s!"({r a.x},{r a.y})"
+def s6 (a : GFp6) : String := s!"({s2 a.x},{s2 a.y},{s2 a.z})"
+def s12 (a : GFp12) : String := s!"({s6 a.x},{s6 a.y})"
+/-- `curvePoint.String` calls MakeAffine first -/
+def strG1 (c : CurvePoint) : String := let c := c.makeAffine; s!"bn256.G1({r c.x},{r c.y})"
+/-- `twistPoint.String` prints the Jacobian triple -/
+def strG2 (c : TwistPoint) : String := s!"bn256.G2({s2 c.x},{s2 c.y},{s2 c.z})"
+
 def handle (line : String) : String :=
   let o := parseOp line
   match o.cmd with
+  | "consts" => s!"order={order}"
+  | "str1" =>
+    match o.nat? "form", o.int? "a" with
+    | some form, some a =>
+      if form = 0 then "s=" ++ strG1 ⟨0, 0, 0, 0⟩ else
+      let P := g1Mul .gen a
+      let e := if form = 2 then P.neg else if form = 4 then g1Mul .gen (a * order) else if form = 3 then aff1 P else P
+      s!"s={strG1 e} mut=-"
+    | _, _ => "bad-op"
+  | "str2" =>
+    match o.nat? "form", o.int? "a" with
+    | some form, some a =>
+      if form = 0 then "s=" ++ strG2 ⟨.zero, .zero, .zero, .zero⟩ else
+      let P := g2Mul .gen a
+      let e := if form = 2 then P.add P else if form = 4 then g2Mul .gen (a * order) else P
+      s!"shape=1 s={if e.isInfinity then "inf" else strG2 e.makeAffine} mut=-"
+    | _, _ => "bad-op"
+  | "strt" =>
+    match o.nat? "form", o.hex? "e" with
+    | some form, some me =>
+      if form = 0 then "s=bn256.GT" ++ s12 ⟨.zero, .zero⟩ else
+      match gtUnmarshal me with
+      | some e => s!"s=bn256.GT{s12 e} mut=-"
+      | none => "reject"
+    | _, _ => "bad-op"
+  | "rand1" | "rand2" =>
+    -- crypto/rand.Int is stdlib: the expected scalar arrives as an oracle field
+    match o.get? "oracle.k" with
+    | some "err" => "err"
+    | some ks =>
+      match ks.toInt? with
+      | some k => if o.cmd == "rand1" then s!"k={k} p={h1 (g1Mul .gen k)}" else s!"k={k} p={h2 (g2Mul .gen k)}"
+      | none => "bad-op"
+    | none => "bad-op"
   | "g1u" =>
     match o.hex? "m" with
     | some m => showOpt g1Marshal (g1Unmarshal m)
